@@ -1,0 +1,12 @@
+//go:build verif
+
+// Contracts for package timestamp, read by /verif/gvc (comment-only file; it declares
+// nothing and is compiled only with -tags verif).
+package timestamp
+
+// Touch records a new stamp for the graph: ghost set touched. TRUSTED (sync.Map and the
+// clock are not modelled; time.Now().UnixNano() is assumed to increase between calls).
+//@ func (*Timestamp).Touch
+//@   trusted
+//@   modifies TS.
+//@   ensures def: same(touchedset(), store(old(touchedset()), name, true))
